@@ -911,8 +911,10 @@ class BlockBase(Base):
                 and hasattr(start_stmt, "get_name")
             ):
                 if end_stmt.get_name() is not None:
+                    # The start statement may have no name (BLOCK DATA).
                     if (
-                        start_stmt.get_name().string.lower()
+                        start_stmt.get_name() is None
+                        or start_stmt.get_name().string.lower()
                         != end_stmt.get_name().string.lower()
                     ):
                         end_stmt.item.reader.error(
